@@ -32,6 +32,8 @@ def rules(ctx):
     c152(ctx)
     c153(ctx)
     c155(ctx)
+    c156(ctx)
+    c157(ctx)
 
 
 def pack_table(f):
@@ -408,3 +410,80 @@ def c155(ctx):
         ctx.check(R, d["pack_sz"], "sizes-what-it-writes", False, "",
                   "pack of %s writes %s through their own pack, but pack_sz does not ask them for their size" % (self_, missing))
     ctx.floor(R, "Packable impls that delegate to concrete component types", n, 4)
+
+
+# ------------------------------------------------------------------------------------------------
+# C15.6 presence: a field packer for a value always writes the field (tag and value), whatever the value
+
+def c156(ctx):
+    R = "C15.6"
+    ctx.declare(R, "a present value is always written: every FieldPackHelper of a leaf type writes the tag on every path of field_pack and counts it "
+                   "on every path of field_pack_sz; only the Option / Vec / Box wrappers decide presence")
+    n = 0
+    for f in sorted(ctx.prog.fns.values(), key=lambda f: f.key):
+        if f.crate != "prototk" or not (f.impl_trait or "").startswith("prototk::FieldPackHelper") or f.name not in ("field_pack", "field_pack_sz"):
+            continue
+        self_ty = f.impl_self or ""
+        wrapper = re.match(r"^(alloc::boxed::Box<F>|alloc::vec::Vec<F>|core::option::Option<F>|alloc::sync::Arc<F>)$", self_ty)
+        if wrapper:
+            inner = P.call_points(f, r"FieldPackHelper.*::%s$" % f.name)
+            ctx.check(R, f, "wrapper-delegates", bool(inner), "%s of %s hands each contained value to the inner packer" % (f.name, self_ty),
+                      "%s of %s no longer delegates to the packer of the contained type" % (f.name, self_ty))
+            continue
+        n += 1
+        sp = [p_ for p_ in P.call_points(f, r"buffertk::stack_pack$")
+              if any(x["k"] == "param" and x["i"] == 2 for x in P.origins(f, P.term_at(f, p_)["args"][0]))]
+        q = P.must_pass(f, sp) if sp else [0]
+        ctx.check(R, f, "always-written:" + f.name, bool(sp) and q is None,
+                  "%s of %s packs the tag on every path" % (f.name, self_ty),
+                  "%s of %s can return without %s the field: a value that happens to equal some default (an empty string, zero) vanishes from "
+                  "repeated, optional and enum positions, where absence means something else (the element is dropped, Some becomes None, an enum "
+                  "variant packs to nothing)" % (f.name, self_ty, "counting" if f.name == "field_pack_sz" else "writing"),
+                  pt=q[-1][1] if q and isinstance(q[-1], tuple) else None, path=q if sp else None)
+    ctx.floor(R, "leaf field packers", n, 36)
+
+
+# ------------------------------------------------------------------------------------------------
+# C15.7 the wire type a field type announces is the wire type of the bytes its Packable writes
+
+def c157(ctx):
+    R = "C15.7"
+    ctx.declare(R, "every field type announces the wire type of what it writes: fixed four-byte payloads are ThirtyTwo, eight-byte payloads SixtyFour, "
+                   "varint payloads Varint (a reader skips or decodes a field by the announced type)")
+    wt = ctx.prog.adts.get("prototk::WireType")
+    if not wt:
+        ctx.violate(R, "prototk::WireType", "anchor", "enum prototk::WireType not found", kind="anchor-missing")
+        return
+    names = [v["name"] for v in wt["variants"]]
+    n = 0
+    for ck, c in sorted(ctx.prog.consts.items()):
+        m = re.match(r"^<prototk::field_types::(\w+)(?:<'a>)? as prototk::FieldType<'_?a?>>::WIRE_TYPE$", ck)
+        if not m or "v" not in c:
+            continue
+        ty = m.group(1)
+        announced = names[c["v"]] if c["v"] < len(names) else "?"
+        g = None
+        for f in ctx.prog.fns.values():
+            if f.crate == "prototk" and f.name == "pack_sz" and (f.impl_trait or "").startswith("buffertk::Packable") and \
+                    strip_generics(f.impl_self or "") == "prototk::field_types::" + ty:
+                g = f
+        if g is None:
+            continue
+        callees = [callee_skey(t) or "" for _b, t in g.calls()]
+        writes = None
+        if any("v64" in c_ for c_ in callees):
+            writes = "Varint"
+        else:
+            packed = [str(t.get("ga") or "") for _b, t in g.calls() if (callee_skey(t) or "").endswith("buffertk::stack_pack")]
+            if any(re.search(r"[ \[](u32|i32|f32)\]$", x) for x in packed):
+                writes = "ThirtyTwo"
+            elif any(re.search(r"[ \[](u64|i64|f64)\]$", x) for x in packed):
+                writes = "SixtyFour"
+        if writes is None:
+            continue
+        n += 1
+        ctx.check(R, g, "wire-type:" + ty, announced == writes, "%s announces %s and writes %s" % (ty, announced, writes),
+                  "field type %s announces wire type %s but its Packable writes a %s payload: the tag on the wire promises a different length than "
+                  "follows, so the field cannot be decoded by its own type and a reader that does not know it skips the wrong number of bytes" %
+                  (ty, announced, writes))
+    ctx.floor(R, "scalar field types with a determinable payload", n, 10)
